@@ -1518,6 +1518,25 @@ func (e *Entry) dup() *Entry {
 		ne.Extra[k] = v
 	}
 
+	// The list attributes and the input and output of an rpc or action are
+	// part of the copy as well: a deviation or augment of one use of a
+	// grouping must not show in another.
+	if e.ListAttr != nil {
+		la := *e.ListAttr
+		ne.ListAttr = &la
+	}
+	if e.RPC != nil {
+		ne.RPC = &RPCEntry{}
+		if e.RPC.Input != nil {
+			ne.RPC.Input = e.RPC.Input.dup()
+			ne.RPC.Input.Parent = &ne
+		}
+		if e.RPC.Output != nil {
+			ne.RPC.Output = e.RPC.Output.dup()
+			ne.RPC.Output.Parent = &ne
+		}
+	}
+
 	return &ne
 }
 
